@@ -42,6 +42,7 @@ func (s *Store) deleteModule(m *ModuleInstance) error {
 			s.nameToModuleCap = newCap
 		}
 	}
+	verifUnlist(s, m)
 	return nil
 }
 
@@ -50,6 +51,7 @@ func (s *Store) module(moduleName string) (*ModuleInstance, error) {
 	s.mux.RLock()
 	defer s.mux.RUnlock()
 	m, ok := s.nameToModule[moduleName]
+	verifLookup(s, moduleName, m)
 	if !ok {
 		return nil, fmt.Errorf("module[%s] not instantiated", moduleName)
 	}
@@ -63,11 +65,13 @@ func (s *Store) registerModule(m *ModuleInstance) error {
 	defer s.mux.Unlock()
 
 	if s.nameToModule == nil {
+		verifRegister(s, m, "closed")
 		return errors.New("already closed")
 	}
 
 	if m.ModuleName != "" {
 		if _, ok := s.nameToModule[m.ModuleName]; ok {
+			verifRegister(s, m, "dup")
 			return fmt.Errorf("module[%s] has already been instantiated", m.ModuleName)
 		}
 		s.nameToModule[m.ModuleName] = m
@@ -82,6 +86,7 @@ func (s *Store) registerModule(m *ModuleInstance) error {
 		m.next.prev = m
 	}
 	s.moduleList = m
+	verifRegister(s, m, "ok")
 	return nil
 }
 
